@@ -529,10 +529,11 @@ Print Assumptions C09_shape_top_level_pairs.
    (C09_shape_comment_texts: no line feed in a comment text; C09_shape_inner_pairs: one return_statement, last, per
    do_block; the optional second pair of a list_item / record_item is an eol_comment, of a do_statement / statement a
    comment).  Missing for the ITEM-level predicates: (1) the induction over PegToItems.conv that transports the tree
-   facts to every nested item (item_all shape_here (conv ..)); (2) the conjunct "a do_statement that starts with a
-   comment has no second comment", which is not a rule-shape fact (kids_spec admits [comment; comment]) but a semantic
-   one: `comment` runs to the line break, so the optional `WHITESPACE* ~ comment` cannot match after it;
-   (3) forest_view_ok: that conv reads EVERY comment / eol_comment pair needs the inner-pair shapes of all 30
+   facts to every nested item (item_all shape_here (conv ..)); (the conjunct "a do_statement that starts with a
+   comment has no second comment", which is not a rule-shape fact — kids_spec admits [comment; comment] — but a semantic
+   one: `comment` runs to the line break, so the optional `WHITESPACE* ~ comment` cannot match after it, is proved at
+   tree level below: C09_shape_do_statement);
+   (2) forest_view_ok: that conv reads EVERY comment / eol_comment pair needs the inner-pair shapes of all 30
    structural rules (list, record, lambda, conditional, call_list, ...), of which six are proved here. *)
 Definition C09_shape_items_full : Prop := forall fuel text s',
   Peg.parse blots_grammar fuel PG_input text = Peg.Ok s' -> forest_shape_ok text (rev (out s')) = true.
@@ -555,3 +556,32 @@ Check C09_parsed_program_comment_texts : forall text forest p,
   forest_no_empty_container text forest = true ->
   Forall comment_text_ok (program_comments p).
 Print Assumptions C09_parsed_program_comment_texts.
+
+(* FIRST-byte analysis of the interpreter, every grammar: if an expression succeeds, either the remaining input is
+   unchanged (and the expression is nullable) or its first byte belongs to [first e]; rule references go through two
+   tables (Fst, Nul) closed under unfolding rule bodies *)
+Require Import Blots.proofs.PegShapeFirst.
+Theorem C09_shape_first_byte :
+  forall (R : Type) (G : grammar R) (Fst : R -> Ascii.ascii -> bool) (Nul : R -> bool),
+  (forall r c, first R G Fst Nul (rd_body (g_def G r)) c = true -> Fst r c = true) ->
+  (forall r, nullable R Nul (rd_body (g_def G r)) = true -> Nul r = true) ->
+  forall f, first_runner R G Fst Nul (run G f).
+Proof. exact run_first. Qed.
+Check C09_shape_first_byte :
+  forall (R : Type) (G : grammar R) (Fst : R -> Ascii.ascii -> bool) (Nul : R -> bool),
+  (forall r c, first R G Fst Nul (rd_body (g_def G r)) c = true -> Fst r c = true) ->
+  (forall r, nullable R Nul (rd_body (g_def G r)) = true -> Nul r = true) ->
+  forall f, first_runner R G Fst Nul (run G f).
+Print Assumptions C09_shape_first_byte.
+
+(* third conjunct of do_shape at tree level: for every accepted text, the inner pairs of every do_statement node are
+   [expression], [expression; comment] or [comment] — never [comment; comment]: the `comment` rule stops at a line break
+   or the end of the input, where `WHITESPACE* ~ comment` cannot start *)
+Theorem C09_shape_do_statement : forall fuel text s',
+  Peg.parse blots_grammar fuel PG_input text = Peg.Ok s' ->
+  forest_all grule text C_do_statement (rev (out s')).
+Proof. exact shape_do_statement. Qed.
+Check C09_shape_do_statement : forall fuel text s',
+  Peg.parse blots_grammar fuel PG_input text = Peg.Ok s' ->
+  forest_all grule text C_do_statement (rev (out s')).
+Print Assumptions C09_shape_do_statement.
